@@ -8,20 +8,41 @@ LEAN_MODULE = "Ctrmml.Properties.C02"
 THEOREMS = ["C02_stream_ends_with_finish_partial", "C02_codec_roundtrip_linear", "C02_codec_roundtrip_segno",
             "C02_codec_roundtrip_segno_once", "C02_codec_roundtrip_loops_nobreak_partial",
             "C02_convert_structured_eq", "C02_codec_roundtrip_loops", "C02_codec_roundtrip_track",
-            "C02_stream_at_offset_partial", "C02_call_return_partial", "C02_double_break_fixed"]
+            "C02_stream_at_offset_partial", "C02_call_return_partial", "C02_double_break_fixed",
+            "C02_track_at_offset_partial", "C02_track_shapes_convert", "C02_drum_call_return_partial",
+            "C02_drum_routine_at_offset_partial", "C02_song_roundtrip_partial"]
 LEVEL = "proof"
 STREAM = "conv.events+conv.seq"
 CHUNK = 100
 TECHNIQUE = "Lean 4 theorems over the converter model (codec register invariant, structure of emitted streams) + spec interpreter of the real bytes + differential correspondence model<->mdsdrv.cpp"
-LEVEL_TEXT = ("see DESIGN §6 C02 and the theorem list in lean/Ctrmml/Properties/C02.lean: the length-compression codec of convert_track (real model) followed by the spec interpreter "
-              "Seq.run is proved to give back the tick string for the linear fragment (all durations 1..65535, all adjacencies, 128-tick splitting, length disambiguation), for a loop "
-              "point + loop-back jump (any number of rounds; the D4 join), for nested counted loops with and without break, and for both combined (loops on both sides of a depth-0 loop point) (convert_track proved equal to a structured two-pass "
-              "encoder, C02_convert_structured_eq, then decoded structurally), from arbitrary initial register contents; building blocks for whole chunks: a compiled stream at any offset with any stacks, and the call/return join (PAT); the whole-song statement (interpretation of the bytes = expansion of the track) is kept as C02_full_statement and is decided "
-              "per case by the spec interpreter Spec/SeqInterp run on the REAL bytes against Spec/Timeline (perf with drum routines resolved), on generated songs covering every "
-              "adjacency of note/tie/rest/command/loop point/loop boundary/call and durations 1..65535; the model reproduces the real converter byte for byte on the same cases.")
-LEVEL_NOTE = ("Trusted: Lean kernel; Model/MdsCodec+MdsConv (byte-exact agreement with mdsdrv.cpp by differential testing); Spec/SeqInterp = my reconstruction of the MDSDRV "
-              "sequence rules (driver source not in the repository); instrument tables are inputs (C11 models them). Proof covers the codec's linear fragment; loops/calls/back-patching "
-              "rest on the interpreter oracle + correspondence (partial).")
+LEVEL_TEXT = ("see DESIGN §6 C02 and the theorem list in lean/Ctrmml/Properties/C02.lean. Three layers, all machine-checked. (1) Codec: convert_track (real model) followed by the spec "
+              "interpreter Seq.run gives back the tick string for every single track over the linear fragment (all durations 0..65535, all adjacencies, 128-tick splitting, length "
+              "disambiguation) with nested counted loops with ANY NUMBER of breaks per loop (only the first is emitted: D23 fix), subroutine calls (annotated with what the callee plays) "
+              "and a depth-0 loop point + loop-back jump, at any offset of a chunk, in the three shapes end_hook produces (FINISH / SEGNO..JUMP / SEGNO..FINISH), in either drum-flag state "
+              "(Codec.Mode: with the flag set a note byte calls its routine, which plays its commands and ends with DMFINISH = its note with the caller's length: C02_drum_call_return_partial, "
+              "C02_drum_routine_at_offset_partial) and with FLG commands that switch the flag at the top level of a track; convert_track is proved "
+              "equal to a structured two-pass encoder in both directions (C02_convert_structured_eq and its converse for streams < 64 KiB). (2) Writer: MDSDRV_Track_Writer run over a "
+              "well-formed track of the fragment emits exactly the flat event list of its events (hidden hook calls inside repeated loop passes and calls change nothing; the writer's "
+              "drum-mode state follows the DRUM_MODE events in text order; a drum routine's writer stops at its first note with DMFINISH), carried "
+              "through the mutually recursive get_subroutine by an invariant. (3) Whole songs: C02_song_roundtrip_partial — for every song of the fragment (no pitch "
+              "envelope; platform commands whose events are one- or two-argument commands without index operand (or `carry`) and on which converter and timeline agree; macro tracks "
+              "(pan envelope on) included; front-end timing; called tracks without loop point and drum-mode switch; DRUM_MODE outside counted loops; every routine the "
+              "converter registered = commands without time and loops of them before its first note; the loop section ends in the drum-mode state it starts in; <= 1 loop point per "
+              "channel; chunk < 64 KiB) and every channel track in "
+              "Timeline.inDomain, the interpreter started at the position the track table lists plays, after masking of index operands, exactly Timeline.expected (calls to any depth "
+              "through the pointer table in either drum-mode state, notes in drum mode through their routines, what is replayed after the loop-back jump). Outside the fragment "
+              "(pitch envelopes, platform `cmd` with index-bearing or unknown opcodes, optimised songs, drum mode switched inside loops / by callees = D27) "
+              "the statement C02_full_statement is decided per case by the spec interpreter on the REAL bytes against Spec/Timeline; the judge marks the cases that are instances "
+              "of the whole-song theorem (ok proved-fragment) and cross-checks the constructor model the theorem is stated over (MdsFile.construct) against the real bytes.")
+LEVEL_NOTE = ("Trusted: Lean kernel; Model/MdsCodec+MdsConv+MdsFile (byte-exact agreement with mdsdrv.cpp by differential testing); Spec/SeqInterp = my reconstruction of the MDSDRV "
+              "sequence rules (driver source not in the repository); Spec/Timeline+Expand; instrument tables are inputs (C11 models them). Proved for all inputs: single tracks of the "
+              "codec fragment, and whole songs of the fragment, drum mode included (partial: extra hypotheses = chunk < 64 KiB, at most one loop point per channel track, called tracks "
+              "without loop point / drum-mode switch, drum-mode switches outside loops, routine tracks = timeless commands before the first note, loop section ending in the drum state it "
+              "starts in, no pitch envelope, platform commands agreeing between converter and timeline (PlatAgree), acceptance by the constructor). Still decided per case by the "
+              "oracle: pitch envelopes, exotic platform `cmd` opcodes, optimised songs (D2), acceptance (that the converter accepts every encodable song). Known: D2, D24 (loop point in a called channel track), "
+              "D27 (drum mode decided in text order by the writer, in execution order by the driver). The oracle's domain (skip otherwise): Timeline.inDomain and, since repo fix b6d6699 "
+              "(the converter refuses a drum routine whose ending note is inside a '[]' loop: err:drumNoteInLoop), Fragment.routineNotesOutsideLoops (every routine the "
+              "specification calls, execution order, has its first note outside loops); the model must refuse exactly the same songs (correspondence).")
 RULE = ("IR songs in the encodable domain from the song grammar (1..4 channel tracks, subroutines, drum routines, loops with breaks, loop point at depth 0, commands, platform commands, "
         "instruments) + adjacency sweep: ordered triples over {explicit note, implicit-length note, tie, rest<128, rest>=128, rest=last rest, command, SEGNO, LP, LPB, LPF, PAT} x durations "
         "{1,2,127,128,129,256,65535}; non-trivial = has loop/call/segno/long duration; distinct by request text")
@@ -41,6 +62,26 @@ CORPUS = [
     "conv P:-32768=, T0:2.36.2.0,11.-32768.0.0",
     "conv T0:4.0.0.0,2.36.24.0,5.0.0.0,2.38.24.0,5.0.0.0,2.40.24.0,6.2.0.0",                   # D23 (fixed): [c / d / e]2
     "conv T0:4.0.0.0,2.36.2.0,2.36.2.0,5.0.0.0,1.0.0.4,5.0.0.0,2.40.2.0,6.2.0.0",              # D23 (fixed): [c c / r / e]2
+    # the non-vacuity song of C02_song_roundtrip_partial: A c L [d / *100 / e]2, *100 f r  (judge: ok proved-fragment)
+    "conv T0:2.36.24.0,7.0.0.0,4.0.0.0,2.38.12.12,5.0.0.0,8.100.0.0,5.0.0.0,2.40.24.0,6.2.0.0 T100:2.41.6.6,1.0.0.3",
+    # calls three deep, a break inside a called track, a zero-time loop section
+    "conv T0:2.36.24.0,8.100.0.0,7.0.0.0,13.5.0.0 T100:4.0.0.0,8.101.0.0,5.0.0.0,2.38.6.0,6.3.0.0 T101:8.102.0.0,3.0.4.2 T102:2.50.1.1",
+    "conv T0:2.36.24.0,7.0.0.0,2.38.24.0,7.0.0.0,2.40.24.0",     # two loop points: the last one counts (outside the proved fragment, judged by the oracle)
+    "conv T0:8.1.0.0,2.36.24.0 T1:2.38.24.0,7.0.0.0,2.40.24.0",  # D24 (known): a call to a channel track that has a loop point never returns
+    # macro tracks (pan envelope on / off): inside the whole-song theorem since round 4 (first-layer model: unmodelled)
+    "conv T0:24.300.0.0,2.36.24.0,24.0.0.0,2.38.12.12 T300:21.1.0.0",
+    "conv T0:4.0.0.0,24.300.0.0,8.100.0.0,5.0.0.0,24.301.0.0,6.2.0.0 T100:24.301.0.0,2.40.6.6 T300:21.1.0.0 T301:21.2.0.0,1.0.0.4",
+    # D26 (fixed): the 'carry' platform command between a length-less note and a rest
+    "conv P:-32768=carry T0:2.36.24.0,2.36.24.0,11.-32768.0.0,1.0.0.48,2.38.24.0",
+    # drum mode inside the oracle's domain (routine ids < 94, routine notes with an on-time)
+    "conv T0:26.1.0.0,2.80.6.2,2.81.3.1,26.0.0.0,2.36.3.1 T80:13.7.0.0,2.40.1.0 T81:21.1.0.0,4.0.0.0,14.1.0.0,6.2.0.0,2.41.1.0,2.42.1.0",
+    "conv T0:2.80.4.0,7.0.0.0,26.1.0.0,4.0.0.0,2.80.6.2,5.0.0.0,2.80.3.1,6.3.0.0,26.0.0.0 T80:13.7.0.0,2.40.1.0",
+    "conv T0:26.1.0.0,7.0.0.0,2.81.1.1,26.0.0.0 T81:4.0.0.0,6.2.0.0,2.2.1.0",   # D27 (known): replayed in the other drum-mode state
+    "conv T0:4.0.0.0,2.36.24.0,26.1.0.0,6.2.0.0 T36:13.7.0.0,2.40.1.0,2.41.1.0",  # D27 (known): drum mode switched on inside a loop
+    "conv T0:8.100.0.0,2.36.2.2 T100:2.36.1.1,26.1.0.0 T36:13.7.0.0,2.40.1.0",      # D27 (known): a subroutine switches drum mode for its caller
+    "conv T0:26.1.0.0,8.100.0.0,26.0.0.0 T100:2.36.1.1 T36:13.7.0.0,2.40.1.0",     # a subroutine called in drum mode is written in drum mode
+    "conv T0:26.1.0.0,2.32.24.0,26.0.0.0 T32:4.0.0.0,2.40.1.0,6.2.0.0",             # the routine's note inside a loop: refused (repo fix b6d6699), outside the domain
+    "conv T0:26.1.0.0,2.32.24.0,26.0.0.0 T32:4.0.0.0,13.5.0.0,6.2.0.0,2.40.1.0",    # a loop before the routine's note: fine
 ]
 
 DURS = [1, 2, 127, 128, 129, 256, 65535]
@@ -156,13 +197,28 @@ def _cases_orig(rng, tier):
                 song[t] = evs[:k] + [g.ev("SEGNO")] + evs[k:]
                 tags.add("segno")
         if rng.random() < 0.2:
-            song[200] = [g.ev("VOL", 7), g.ev("NOTE", 40, 0, 0)]
-            song[201] = [g.ev("PAN", 1), g.ev("LOOP_START"), g.ev("VOL_REL", 1), g.ev("LOOP_END", 2), g.ev("NOTE", 41, 0, 0)]
-            evs = [g.ev("DRUM_MODE", 1)]
+            # routine ids below 94 and routine notes with an on-time: inside Timeline.inDomain (with ids 200/201
+            # and zero-length routine notes every drum case was skipped by the judge)
+            song[80] = [g.ev("VOL", 7), g.ev("NOTE", 40, 1, 0)]
+            song[81] = [g.ev("PAN", 1), g.ev("LOOP_START"), g.ev("VOL_REL", 1), g.ev("LOOP_END", 2), g.ev("NOTE", 41, 1, 0)]
+            # one drum case in ten has a routine whose note is inside a '[]' loop: refused by the converter since
+            # repo fix b6d6699 (err:drumNoteInLoop) -- outside the encodable domain (skipped by the judge), but the
+            # model has to refuse exactly the same songs
+            rids = [80, 81]
+            if rng.random() < 0.1:
+                song[82] = [g.ev("VOL", 3), g.ev("LOOP_START"), g.ev("NOTE", 42, 1, 0), g.ev("LOOP_END", 2)]
+                rids = [80, 81, 82]
+                tags.add("drum-note-in-loop")
+            evs = []
             for e in song[0]:
                 if e[0] == T["NOTE"]:
-                    e = (e[0], rng.choice([200, 201]), e[2], e[3])
+                    e = (e[0], rng.choice(rids), e[2], e[3])
                 evs.append(e)
+            # drum mode is switched on behind the loop point (so that the replayed section starts in the state it was
+            # written in); one case in five switches it on at the start of the track: with a loop point that is D27
+            segs = [i for i, e in enumerate(evs) if e[0] == T["SEGNO"]]
+            at = segs[-1] + 1 if segs and rng.random() < 0.8 else 0
+            evs = evs[:at] + [g.ev("DRUM_MODE", 1)] + evs[at:]
             song[0] = evs + [g.ev("DRUM_MODE", 0), g.ev("NOTE", 12, 3, 1)]
             for sid in (100, 101):
                 if sid in song:
@@ -170,8 +226,16 @@ def _cases_orig(rng, tier):
             tags.add("drum")
         if rng.random() < 0.2:
             song[0].insert(rng.randrange(0, len(song[0]) + 1), g.ev("PLATFORM", -32768))
-            extra.append(rng.choice(["P:-32768=pcmrate,4", "P:-32768=lfo,3,5", "P:-32768=write,0x28,0xf0", "P:-32768=lforate,3", "P:-32768=mode,1", "P:-32768=write,64,5"]))
+            extra.append(rng.choice(["P:-32768=pcmrate,4", "P:-32768=lfo,3,5", "P:-32768=write,0x28,0xf0", "P:-32768=lforate,3", "P:-32768=mode,1", "P:-32768=write,64,5",
+                                     "P:-32768=carry", "P:-32768=fm3,1010"]))
             tags.add("platform")
+        if rng.random() < 0.15:
+            # a macro track (pan envelope on), switched on somewhere in channel 0 and possibly off again
+            song[300] = [g.ev("PAN", 1), g.ev("REST", 0, 0, 4), g.ev("PAN", 2)]
+            song[0].insert(rng.randrange(0, len(song[0]) + 1), g.ev("PAN_ENVELOPE", 300))
+            if rng.random() < 0.5:
+                song[0].append(g.ev("PAN_ENVELOPE", 0))
+            tags.add("macro")
         if rng.random() < 0.25:
             extra.append("I:1=fm:%d:1" % rng.randrange(100))
             extra.append("I:2=psg:%d:2" % rng.randrange(100))
@@ -218,20 +282,166 @@ def outcome_class(a):
     return a.split(" ")[0][:40]
 
 
+PROVED = {"n": 0, "judged": 0}
+
+
+def extra_fail(case, impl, judge):
+    """never fails a case: counts the cases that are instances of the whole-song theorem"""
+    if judge.startswith("ok"):
+        PROVED["judged"] += 1
+        if "proved-fragment" in judge:
+            PROVED["n"] += 1
+    return False
+
+
+def _report():
+    if PROVED["judged"]:
+        print("[check] %d of %d cases judged ok are instances of the hypotheses of the whole-song theorem (ok proved-fragment)" % (PROVED["n"], PROVED["judged"]))
+
+
+import atexit
+atexit.register(_report)
+
+
+def segno_in_callee(req):
+    """D24: some JUMP names a track that contains a loop point"""
+    try:
+        song = songgen.parse_request_song(req)
+        T = songgen.event_types()
+    except Exception:
+        return False
+    for evs in song.values():
+        for e in evs:
+            if e[0] == T["JUMP"]:
+                tgt = e[1] % 65536
+                if tgt in song and any(x[0] == T["SEGNO"] for x in song[tgt]):
+                    return True
+    return False
+
+
+def drum_dynamic(req, budget=60000):
+    """D27: some note is reached in a drum-mode state (execution order: the Player and the MDSDRV flag byte) that
+    differs from the state the track writer had when it wrote the note (text order; a channel writer starts with
+    drum mode off, a subroutine's writer with the state its caller's writer had at the call).  Played the way
+    Basic_Player does: loops, breaks, calls, drum routines, the loop-back once."""
+    try:
+        song = songgen.parse_request_song(req)
+        T = songgen.event_types()
+    except Exception:
+        return False
+
+    class Bad(Exception):
+        pass
+
+    class Found(Exception):
+        pass
+
+    steps = [0]
+
+    def text_state(evs, s0):
+        d, st = s0, []
+        for e in evs:
+            st.append(d)
+            if e[0] == T["DRUM_MODE"]:
+                d = e[1] != 0
+        return st
+
+    def match_end(evs, i):
+        depth = 0
+        while i < len(evs):
+            if evs[i][0] == T["LOOP_START"]: depth += 1
+            if evs[i][0] == T["LOOP_END"]:
+                if depth == 0: return i
+                depth -= 1
+            i += 1
+        raise Bad()
+
+    def play(tid, start, drum, s0, routine, depth):
+        """-> drum state afterwards (a routine: ("note", state) at its first note)"""
+        if depth > 12 or tid not in song: raise Bad()
+        evs = song[tid]
+        static = text_state(evs, s0)
+        stack = []
+        i = start
+        while i < len(evs):
+            steps[0] += 1
+            if steps[0] > budget: raise Bad()
+            e = evs[i]
+            t = e[0]
+            if t == T["LOOP_START"]:
+                stack.append([i, None])
+            elif t == T["LOOP_END"]:
+                if not stack: raise Bad()
+                if stack[-1][1] is None: stack[-1][1] = e[1]
+                stack[-1][1] -= 1
+                if stack[-1][1] > 0:
+                    i = stack[-1][0]
+                else:
+                    stack.pop()
+            elif t == T["LOOP_BREAK"]:
+                if not stack: raise Bad()
+                # the break is taken on the last pass of a loop that runs at least twice (on the first pass the
+                # count is not yet known: a loop with count <= 1 plays its whole body once)
+                if stack[-1][1] == 1:
+                    j = match_end(evs, i + 1)
+                    stack.pop()
+                    i = j
+            elif t == T["JUMP"]:
+                if routine: raise Bad()
+                drum = play(e[1] % 65536, 0, drum, static[i], False, depth + 1)
+            elif t == T["DRUM_MODE"]:
+                if routine: raise Bad()
+                drum = e[1] != 0
+            elif t == T["NOTE"]:
+                if routine:
+                    return ("note", drum)
+                if drum != static[i]: raise Found()
+                if drum:
+                    r = play(e[1] % 65536, 0, drum, False, True, depth + 1)
+                    if not isinstance(r, tuple): raise Bad()
+                    drum = r[1]
+            elif t == T["END"]:
+                break
+            i += 1
+        if routine: raise Bad()
+        return drum
+
+    try:
+        for tid in song:
+            if tid < 16:
+                d = play(tid, 0, False, False, False, 0)
+                segs = [i for i, e in enumerate(song[tid]) if e[0] == T["SEGNO"]]
+                if segs:
+                    play(tid, segs[-1] + 1, d, False, False, 0)
+    except Found:
+        return True
+    except (Bad, RecursionError):
+        return False
+    return False
+
+
 def finding_key(case, impl, judge):
     if impl.startswith("crash") or impl == "timeout" or impl.startswith("uncaught"):
         m = re.search(r"(\w+\.cpp:\d+)", impl)
         return "crash:" + (m.group(1) if m else "unknown")
     if "rejected" in judge:
+        # refused for a routine note inside a loop although no drum note of the song (execution order) calls such a
+        # routine: the writer took a plain note for a drum note (text order), which is D27
+        if impl.startswith("err:drumNoteInLoop") and case.req.startswith("conv ") and drum_dynamic(case.req):
+            return "drum-mode-dynamic"
         return "rejects-encodable:" + impl.split(" ")[0][:40]
     if case.req.startswith("convo"):
         # an optimised song whose folded loop count does not fit the one-byte LPF operand
         m = re.search(r"251\.(\d+)", impl)
         if any(int(x) > 255 for x in re.findall(r"[;:|]251\.(\d+)", impl)):
             return "optimised:loop-count>255"
+    if case.req.startswith("conv ") and drum_dynamic(case.req):
+        return "drum-mode-dynamic"
     if "interpreter stopped" in judge:
         m = re.search(r"stopped with Ctrmml.Seq.Stop.(\w+)", judge)
         return "stream-broken:" + (m.group(1) if m else "x")
+    if case.req.startswith("conv ") and segno_in_callee(case.req):
+        return "segno-in-callee"
     return "timeline-differs"
 
 
